@@ -184,6 +184,23 @@ def run(rep, tier, seed):
             t += [fi[0], str(fi[1]), str(f.position), raw(f.value)]
         t += [raw(pd.payload), raw(pd.raw)]
         add(b, PacketDescriptor, pd, 'packet-descriptor', ' '.join(t))
+        if stack in ('UDP', 'SCTP') and i % 3 == 0:
+            # the descriptor of a packet that was handed to the parser as a RIGHT-padded Buffer: `raw` (and every byte-aligned field) is
+            # right-padded; the reloaded descriptor carries exactly what was serialised
+            o_ = impl_outcome(lambda: parser_for(stack).parse(mk(b2s(pkt), R)))
+            if o_[0] == 'OK':
+                pdr = o_[1]
+                pdr.direction = pd.direction
+                t = ['J', 'pdesc', DIRC[DI(pdr.direction)], str(len(pdr.fields))]
+                for f in pdr.fields:
+                    fi = fid_of(f.id)
+                    t += [fi[0], str(fi[1]), str(f.position), raw(f.value)]
+                t += [raw(pdr.payload), raw(pdr.raw)]
+                add(b, PacketDescriptor, pdr, 'packet-descriptor-right-padded', ' '.join(t))
+                y_ = impl_outcome(lambda: PacketDescriptor.from_json(pdr.json()))
+                if y_[0] == 'OK' and (raw(y_[1].raw) != raw(pdr.raw) or y_[1].length != pdr.length):
+                    rep.violation('property', 'packet descriptor reloaded from JSON: raw is %s / length %s, serialised %s / %s' % (raw(y_[1].raw)[:40], y_[1].length, raw(pdr.raw)[:40], pdr.length),
+                                  dict(layer='json', op='pdesc-raw', json=pdr.json()))
         # single field descriptors (FieldDescriptor has its own json / from_json / ==), values of either padding side
         for f in rnd.sample(pd.fields, min(3, len(pd.fields))):
             fi = fid_of(f.id)
